@@ -1007,6 +1007,20 @@ class Interp:
     def spec_truthy(self, n, env):
         return VBool(self.truth(self.ev(n.args[0], env)))
 
+    def spec_trig(self, n, env):
+        """trig(i): a trigger marker, *defined* as True (axiom assumed on the path).  Writing
+        `forall(i, 0 <= i < n and trig(i), exists(p, ..., xs[p] == i))` gives the clause a usable E-matching
+        pattern on the bare bound integer: a goal of the same shape is negated to a skolem constant i0 with
+        trig(i0), which instantiates every assumed trig-marked clause at i0 (a skolemised `exists` under `forall`
+        has no other term mentioning only i)."""
+        v = self.ev(n.args[0], env)
+        f = z3.Function("trig_mark", z3.IntSort(), z3.BoolSort())
+        if not getattr(self.path, "_trig_axiom", False):
+            self.path._trig_axiom = True
+            x = z3.Int("tm_x")
+            self.path.assume(z3.ForAll([x], f(x), patterns=[f(x)]))
+        return VBool(f(to_int(v)))
+
     def spec_to_real(self, n, env):
         return VReal(to_real(self.ev(n.args[0], env)))
 
